@@ -24,6 +24,7 @@
 #include "galois/FixedSizeRing.h"
 #include "galois/runtime/Mem.h"
 #include "galois/substrate/PaddedLock.h"
+#include "galois/substrate/Verif.h"
 #include "galois/worklists/WLCompileCheck.h"
 #include "galois/worklists/WorkListHelpers.h"
 
@@ -99,6 +100,7 @@ private:
   }
 
   void pushChunk(Chunk* C) {
+    GALOIS_VERIF_POINT(CHUNK_PUSH_FULL);
     LevelItem& I = Q.get();
     I.push(C);
   }
@@ -114,6 +116,7 @@ private:
     if (r)
       return r;
 
+    GALOIS_VERIF_POINT(CHUNK_STEAL);
     for (int i = id + 1; i < (int)Q.size(); ++i) {
       r = popChunkByID(i);
       if (r)
@@ -243,6 +246,7 @@ public:
         return retval;
       if (n.next)
         delChunk(n.next);
+      GALOIS_VERIF_POINT(CHUNK_POP_NEXT);
       n.next = popChunk();
       if (n.next)
         return n.next->extract_back();
@@ -252,6 +256,7 @@ public:
         return retval;
       if (n.cur)
         delChunk(n.cur);
+      GALOIS_VERIF_POINT(CHUNK_POP_NEXT);
       n.cur = popChunk();
       if (!n.cur) {
         n.cur  = n.next;
